@@ -120,7 +120,7 @@ theorem decrease_adjusted {W U : Nat} {m m' : Market} {c : PerpCfg} {pr : Prices
 theorem adjustDecrease_full {W U : Nat} {m : Market} {c : PerpCfg} {pr : Prices} {p : Pos} {wd a b : Nat}
     (h : adjustDecrease W U m c pr p p.sizeUsd wd = .ok (a, b)) : a = p.sizeUsd := by
   unfold adjustDecrease at h
-  simp only [Nat.lt_irrefl, if_false, bind, Except.bind, pure, Except.pure] at h
+  simp only [Nat.lt_irrefl, if_false] at h
   cases h; rfl
 
 theorem checkedSub_some {a b r : Nat} (h : checkedSub a b = some r) : b ≤ a ∧ r = a - b := by
